@@ -487,6 +487,14 @@ func streamGoConv(o *Out, r *rand.Rand, n int, thorough bool) {
 				k = 1 + r.Intn(nargs)
 			}
 			script = "f(" + strings.Join(append(append([]string{}, args[:nargs-k]...), "["+strings.Join(args[nargs-k:], ", ")+"]..."), ", ") + ")"
+			switch r.Intn(4) {
+			case 0:
+				// the spread list read from a list element (a value still wrapped in an interface) ...
+				script = "rows9 = [[" + strings.Join(args[nargs-k:], ", ") + "]]\nf(" + strings.Join(append(append([]string{}, args[:nargs-k]...), "rows9[0]..."), ", ") + ")"
+			case 1:
+				// ... or from a map entry
+				script = "cfg9 = {\"xs\": [" + strings.Join(args[nargs-k:], ", ") + "]}\nf(" + strings.Join(append(append([]string{}, args[:nargs-k]...), "cfg9.xs..."), ", ") + ")"
+			}
 		}
 		if nin == 0 && !variadic {
 			continue // functions without parameters ignore their arguments (short circuit pinned by the vm tests)
@@ -494,7 +502,11 @@ func streamGoConv(o *Out, r *rand.Rand, n int, thorough bool) {
 		// every fourth well-formed call is started with `go`: the same arguments must arrive (the call then has no result)
 		goMode := (nargs == nin || (variadic && nargs >= nin)) && r.Intn(4) == 0
 		if goMode {
-			script = "go " + script
+			if nl := strings.LastIndex(script, "\n"); nl >= 0 {
+				script = script[:nl+1] + "go " + script[nl+1:]
+			} else {
+				script = "go " + script
+			}
 		}
 		e := env.NewEnv()
 		_ = e.DefineValue("f", fn)
